@@ -52,6 +52,7 @@ const char* op_name[] = {"push", "try_push", "push_n", "try_push_n", "push_value
 
 struct Op {
   OpKind kind;
+  int hold;        // extra yields inside the callback (keeps the slot busy while others overtake)
   int n;           // batch size
   bool conc;       // CONCURRENT
   bool wake;       // USE_FUTEX_WAKE
@@ -84,6 +85,10 @@ struct World {
   uint64_t next_comp_id = 1;
 };
 World* W;
+thread_local int tl_hold = 0;  // how long the current op lingers inside its callbacks
+void linger() {
+  for (int i = 0; i < tl_hold; i++) dsched::yield_point();
+}
 
 uint64_t make_id(int thread, int seq) { return ((uint64_t)(thread + 1) << 20) | (uint64_t)seq; }
 
@@ -93,6 +98,7 @@ void fill(Elem& e, uint64_t id) {
   e.id.set(id, "elem.id");
   e.a.set(id * 3 + 1, "elem.a");
   dsched::point();
+  linger();
   e.b.set(~id, "elem.b");
   e.busy = 0;
 }
@@ -102,6 +108,7 @@ uint64_t drain(Elem& e) {
   uint64_t id = e.id.get("elem.id");
   uint64_t a = e.a.get("elem.a");
   dsched::point();
+  linger();
   uint64_t b = e.b.get("elem.b");
   if (a != id * 3 + 1 || b != ~id)
     dsched::fail("payload", "element %lx delivered with torn payload a=%lx b=%lx", (unsigned long)id, (unsigned long)a,
@@ -157,11 +164,12 @@ void do_push_ops(int thread, const ThreadPlan& plan) {
   int seq = 0, left = plan.quota;
   size_t opi = 0;
   while (left > 0) {
-    Op op = opi < plan.ops.size() ? plan.ops[opi] : Op{W->mode == M_COMP ? O_PUSH_COMP : O_PUSH, 1, true, true, 0};
+    Op op = opi < plan.ops.size() ? plan.ops[opi] : Op{W->mode == M_COMP ? O_PUSH_COMP : O_PUSH, 0, 1, true, true, 0};
     opi++;
     int n = op.n < 1 ? 1 : op.n;
     if (n > left) n = left;
     if ((size_t)n > W->cap) n = (int)W->cap;
+    tl_hold = op.hold;
     int rec = op_begin(thread, op.kind);
     W->push_inflight++;
     uint64_t epoch0 = W->op_epoch;
@@ -257,14 +265,15 @@ void do_pop_ops(int thread, const ThreadPlan& plan) {
   size_t opi = 0;
   int fails = 0;
   while (left > 0) {
-    Op op = opi < plan.ops.size() ? plan.ops[opi] : Op{W->mode == M_COMP ? O_POP_COMP : O_POP, 1, true, true, 0};
+    Op op = opi < plan.ops.size() ? plan.ops[opi] : Op{W->mode == M_COMP ? O_POP_COMP : O_POP, 0, 1, true, true, 0};
     opi++;
     // a consumer that keeps failing falls back to a blocking / compensating pop
     if (fails >= 3 && (op.kind == O_TRY_POP || op.kind == O_TRY_POP_N || op.kind == O_POP_TIMED))
-      op = Op{W->mode == M_COMP ? O_POP_COMP : O_POP, 1, op.conc, true, 0};
+      op = Op{W->mode == M_COMP ? O_POP_COMP : O_POP, 0, 1, op.conc, true, 0};
     int n = op.n < 1 ? 1 : op.n;
     if (n > left) n = left;
     if ((size_t)n > W->cap) n = (int)W->cap;
+    tl_hold = op.hold;
     int rec = op_begin(thread, op.kind);
     uint64_t epoch0 = W->op_epoch;
     bool alone0 = W->inflight == 1;
@@ -394,7 +403,7 @@ void run_case(Chooser& c) {
 #else
   bool timed_consumer = false;
 #endif
-  int total = c.range(1, vf::thorough() ? 24 : 10);
+  int total = c.range(1, vf::thorough() ? 32 : 16);
   if (total < nprod) total = nprod;
   if (total < ncons) total = ncons;
 
@@ -415,6 +424,21 @@ void run_case(Chooser& c) {
     dsched::label("pumped_to_wrap");
   }
 
+  // start somewhere inside the ring, so that wrap-arounds fall at varying places of the program
+  {
+    size_t off = c.below((uint32_t)world.cap);
+    if (off) {
+      dsched::quiet_begin();
+      for (size_t i = 0; i < off; i++) {
+        q.push<false, false, false>([&](Elem&) {});
+        q.pop<false, false, false>([&](Elem&) {});
+      }
+      dsched::quiet_end();
+      dsched::label("ring_offset");
+    }
+    dsched::describe(" off=%zu;", off);
+  }
+
   // quotas
   std::vector<ThreadPlan> plans;
   auto split = [&](int parts, bool producer) {
@@ -431,6 +455,7 @@ void run_case(Chooser& c) {
     dsched::describe(" T%zu%s q=%d[", t + 1, p.producer ? "P" : "C", p.quota);
     for (int i = 0; i < nops; i++) {
       Op op{};
+      op.hold = c.chance(1, 4) ? c.range(1, 6) : 0;
       op.n = c.range(1, (int)world.cap);
       // CONCURRENT=false only where exactly one thread ever touches that end; with
       // compensation every thread may touch both ends
@@ -455,8 +480,9 @@ void run_case(Chooser& c) {
       // the compensating overloads take tickets with an atomic add: always concurrent-safe
       if (op.kind == O_PUSH_COMP || op.kind == O_POP_COMP) op.conc = true;
       p.ops.push_back(op);
-      dsched::describe("%s%s(n=%d%s%s%s)", i ? "," : "", op_name[op.kind], op.n, op.conc ? "" : ",nc", op.wake ? ",wake" : "",
-                       op.kind == O_POP_TIMED ? ",timed" : "");
+      dsched::describe("%s%s(n=%d%s%s%s%s)", i ? "," : "", op_name[op.kind], op.n, op.conc ? "" : ",nc", op.wake ? ",wake" : "",
+                       op.kind == O_POP_TIMED ? ",timed" : "", op.hold ? ",hold" : "");
+      if (op.hold) dsched::label("op_lingers_in_callback");
       dsched::label(op_name[op.kind]);
     }
     dsched::describe("]");
